@@ -732,6 +732,10 @@ pub fn run(prop: &str, tier: &str, seed: i64) -> Outcome {
         Which::C18 => "every `info pv` line printed by every search of every word of the same exploration is replayed on the reference model from the searched root",
         Which::C08 => "every word over {search(position_i, depth_j), NEWGAME}: no node of iteration depth > limit may be polled (monitor in the node-entry hook), the search must return by itself, no panic",
     };
+    // vacuity guards: a report layout the harness does not understand must not pass as "nothing wrong seen"
+    if which == Which::C18 && acc.counts.get("non-empty pv lines").copied().unwrap_or(0) == 0 {
+        acc.errors.push("no principal variation was recognised in any transcript (has the layout of the `info` lines changed beyond the UCI keyword grammar?)".into());
+    }
     let mut out = Outcome::new(acc, reports, rule);
     out.traces_validated = out.acc.states;
     out.assumptions = vec!["depth limits <= 4 (5 for C08 thorough) on seven families of 10-12 related positions; words up to length 3".into(), "DFS with cloned tables is equivalent to re-execution from the empty table because the search is deterministic (C19)".into()];
